@@ -10,6 +10,8 @@ META = dict(
 
 
 def harnesses(tier):
+    from contracts.autoreg import autoreg_harnesses
+    hs_a = autoreg_harnesses(tier, modes=("forward",))
     from contracts.movement import movement_harnesses
     hs_m = movement_harnesses(tier)
     from contracts.linearfam import linear_harnesses
@@ -18,4 +20,4 @@ def harnesses(tier):
     hs_c = coupling_harnesses({"C01"}, tier, modes=("forward",))
     from contracts.modules import transform_harness
     from contracts.elementwise import SPECS, FUNCTIONAL
-    return hs_m + hs_l + hs_c + [transform_harness(SPECS[n], "forward", {"C01"}) for n in FUNCTIONAL]
+    return hs_a + hs_m + hs_l + hs_c + [transform_harness(SPECS[n], "forward", {"C01"}) for n in FUNCTIONAL]
